@@ -53,6 +53,29 @@ TABLE.update({
  "C17-D": ("sim", "go test -vet=off -count=1 -run TestSuppliedStatesDoNotChangeTheRun ./sim/"),
 })
 
+TABLE.update({
+ "C01-E": ("data", "go test -vet=off -count=1 -run TestC01E ./data/"),
+ "C01-F": ("data/cdata", "go test -vet=off -count=1 -run TestC01F ./data/cdata/"),
+ "C02-E": ("data", "go test -vet=off -count=1 -run TestC02E ./data/"),
+ "C02-F": ("data/cdata", "go test -vet=off -count=1 -run TestC02F ./data/cdata/"),
+ "C03-E": ("data/cdata", "go test -vet=off -count=1 -run TestC03E ./data/cdata/"),
+ "C03-F": ("libopenwater", "D=$(mktemp -d) && go build -buildmode=c-shared -o $D/libopenwater.so ./libopenwater/ && gcc -O1 -o $D/driver %(out)s/demo/c03f_driver.c -I$D -L$D -lopenwater -Wl,-rpath,$D && $D/driver; rc=$?; rm -rf $D; exit $rc"),
+ "C04-E": ("models/conversion", "go test -vet=off -count=1 -run TestC04EDemo ./models/conversion/"),
+ "C04-F": ("models/storage", "go test -vet=off -count=1 -run TestC04FDemo ./models/storage/"),
+ "C05-E": ("models/rr", "go test -vet=off -count=1 -run TestC05E ./models/rr/"),
+ "C05-F": ("cmd/ow-sim", "go1.26.8 test -race -modfile=%(stub)s -vet=off -count=1 -run TestC05F ./cmd/ow-sim/"),
+ "C06-E": ("models/storage", "go test -vet=off -count=1 -run TestC06E ./models/storage/"),
+ "C06-F": ("models/routing", "go test -vet=off -count=1 -run TestC06F ./models/routing/"),
+ "C07-E": ("cmd/ow-sim", "go1.26.8 test -modfile=%(stub)s -vet=off -count=1 -run TestC07E ./cmd/ow-sim/"),
+ "C07-F": ("cmd/ow-sim", "go1.26.8 test -modfile=%(stub)s -vet=off -count=1 -run TestC07F ./cmd/ow-sim/"),
+ "C08-E": ("io", "go1.26.8 test -modfile=%(stub)s -vet=off -count=1 -run TestC08E ./io/"),
+ "C08-F": ("io", "go1.26.8 test -modfile=%(stub)s -vet=off -count=1 -run TestC08F ./io/"),
+ "C14-E": ("models/conversion", "go test -vet=off -count=1 -run TestC14E ./models/conversion/"),
+ "C14-F": ("models/storage", "go test -vet=off -count=1 -run TestC14F ./models/storage/"),
+ "C17-E": ("sim", "go test -race -vet=off -count=1 -run TestColdConcurrentRequests ./sim/"),
+ "C17-F": ("sim", "go test -vet=off -count=1 -run TestAnswerAfterFailedWrite ./sim/"),
+})
+
 SUITE = "go build ./data/... ./util/... ./sim/... ./models/... ./conv/... ./libopenwater/ && go test -vet=off -count=1 ./data/... ./io/json/... ./util/..."
 
 def sh(cmd, cwd=WT):
